@@ -55,7 +55,13 @@ def _run_cvc5(smt2, timeout_ms):
 
 
 def _work(item):
-    idx, smt2, must, use_cvc5, both, hinted = item
+    idx, smt2, must, use_cvc5, both, hinted = item[:6]
+    relaxed = item[6] if len(item) > 6 else None
+    qf = item[7] if len(item) > 7 else None
+    if relaxed is not None:
+        r, t, _ = _run_z3(relaxed, 3000, False)
+        if r == 'unsat':
+            return idx, 'unsat', t, None, 'z3(linear premises)'
     if hinted is not None:
         r, t, model = _run_z3(hinted, 4000, True)
         if r == 'sat':
@@ -73,6 +79,11 @@ def _work(item):
         t += t2
         if r2 in ('sat', 'unsat'):
             r, backend = r2, 'cvc5'
+    if r not in ('sat', 'unsat') and qf is not None:
+        r3, t3, m3 = _run_z3(qf, 5000, True)
+        t += t3
+        if r3 == 'sat':
+            return idx, 'sat', t, m3, 'z3(quantifier-free part)'
     elif both and r in ('sat', 'unsat'):
         r2, t2 = _run_cvc5(smt2, CVC5_TIMEOUT_MS)
         t += t2
@@ -89,8 +100,9 @@ def discharge(obs, jobs=None, cross=False):
     items = []
     for i, ob in todo:
         try:
-            hinted = ob.smt2(hints=True) if ob.must in ('sat', 'refuted') else None
-            items.append((i, ob.smt2(), ob.must, True, cross, hinted))
+            ob.freeze()
+            fz = ob.frozen
+            items.append((i, fz['main'], ob.must, True, cross, fz.get('hinted'), fz.get('relaxed'), fz.get('qf')))
         except Exception as e:     # noqa
             ob.status = 'unknown'
             ob.detail = 'serialisation failed: %s' % e
